@@ -147,10 +147,14 @@ class Res:
                 "err": self.err[-1500:].decode("utf-8", "replace"), "timed_out": self.timed_out}
 
 
+FIXED_HOME = os.path.join(SCRATCH_ROOT, "home")
+
+
 def base_env(home):
+    os.makedirs(FIXED_HOME, exist_ok=True)
     return {
         "PATH": TOOLS + ":/usr/bin:/bin",
-        "HOME": home,
+        "HOME": FIXED_HOME,      # one fixed (empty) home for both shells: `~` expands to the same text everywhere
         "LC_ALL": "C.utf8",
         "TZ": "UTC",
         "RUST_BACKTRACE": "0",
@@ -208,7 +212,7 @@ def run_shell(shell, script, cwd, mode="file", args=(), env_extra=None, stdin_da
         path = os.path.join(cwd, ".vscript.sh")
         with open(path, "w", encoding="utf-8", errors="surrogateescape") as f:
             f.write(script)
-        argv += [path] + list(args)
+        argv += ["./.vscript.sh"] + list(args)      # relative: `$0` is then the same text in every scratch directory
     elif mode == "c":
         argv += ["-c", script, "sh"] + list(args)
     elif mode == "stdin":
